@@ -1,4 +1,701 @@
-import ApiFu.C09.Model
-import ApiFu.C09.Spec
+/-
+  C09 — property theorems.
+
+  Standing hypotheses (exactly what the property statement grants):
+    * `StrictTotal lt`  — cursors are totally ordered by `LessThan`;
+    * `S.Perm E`, `Sorted lt S` — the edge set `E` has distinct cursors and `S` is its arrangement in
+      cursor order (`Sorted` is strict, so it implies distinctness);
+    * `LawfulSort lt sort` — `sort.Slice` returns a permutation ordered by the comparator;
+    * `Serves lt E app mode` — the application supplies all edges of `E` in some order
+      (`ResolveAllEdges`) or honours the documented `ResolveEdges` contract for `E`;
+    * `LawfulCodec dec enc` — where emitted cursors are sent back.
+  The theorems hold for every cursor type, every edge set of every size, every argument combination
+  and every page size; nothing here is checked on samples.
+-/
+import ApiFu.C09.Walk
+
 namespace ApiFu.C09
+
+variable {α : Type}
+
+/-- A request the connection field accepts: exactly one non-negative count (`checkArgs`), and the
+    `after` / `before` strings decode to the positions `av` / `bv` (`none` = absent or `""`). -/
+structure Accepted (dec : String → Option α) (a : Args) (av bv : Option α) : Prop where
+  args : checkArgs a = none
+  after : decodeArg dec a.after = some av
+  before : decodeArg dec a.before = some bv
+
+theorem Accepted.resolve_eq {dec : String → Option α} {a : Args} {av bv : Option α}
+    (hacc : Accepted dec a av bv) (lt : α → α → Bool) (sort : List α → List α) (app : App α)
+    (mode : Mode) (sel : Sel) :
+    resolve lt sort dec app mode a sel = resolveDecoded lt sort app mode a sel av bv :=
+  resolve_accepted lt sort dec app mode a sel av bv hacc.args hacc.after hacc.before
+
+section
+variable [DecidableEq α]
+
+/-! ### pagination.EdgesToReturn (the direct API) -/
+
+/-- **edgesToReturn_eq_relay** — for every edge list `E` with distinct cursors, in any order, and
+    every `after`/`before`/`first`/`last`, `EdgesToReturn` returns exactly the edges the Relay
+    algorithm selects from the list in cursor order — and panics exactly where the specification
+    says "throw an error" (a negative count). -/
+theorem edgesToReturn_eq_relay {lt : α → α → Bool} (h : StrictTotal lt) {sort : List α → List α}
+    (hs : LawfulSort lt sort) {E S : List α} (hperm : S.Perm E) (hsorted : Sorted lt S)
+    (after before : Option α) (f l : Option Int) :
+    (edgesToReturn lt sort E after before f l).map (·.1) = Relay.edgesToReturn lt S before after f l := by
+  by_cases hnn : NonNeg f ∧ NonNeg l
+  · rw [edgesToReturn_eq h hs hperm hsorted after before f l hnn.1 hnn.2,
+      relay_edgesToReturn_eq h hsorted after before f l hnn.1 hnn.2]
+    rfl
+  · rw [edgesToReturn_neg lt sort E after before f l hnn]
+    unfold Relay.edgesToReturn
+    by_cases hf : NonNeg f
+    · have hl : ¬ NonNeg l := fun hl => hnn ⟨hf, hl⟩
+      cases l with
+      | none => exact absurd trivial hl
+      | some n =>
+        have hn : n < 0 := by
+          have : ¬ (0 ≤ n) := hl
+          omega
+        cases f with
+        | none => simp [hn]
+        | some m =>
+          have hm : ¬ m < 0 := by
+            have : 0 ≤ m := hf
+            omega
+          simp only [hm, if_false, hn, if_true]
+          split <;> rfl
+    · cases f with
+      | none => exact absurd trivial hf
+      | some m =>
+        have hm : m < 0 := by
+          have : ¬ (0 ≤ m) := hf
+          omega
+        simp [hm]
+
+/-- **edgesToReturn_page_info** — whenever `EdgesToReturn` returns: the page is in cursor order,
+    `StartCursor`/`EndCursor` are the first/last returned edge's cursor, a page-info flag is true
+    only if an edge of `E` exists outside the page beyond it in that direction, and (unless `first`
+    and `last` are both given, which the connection field rejects) each flag is one the Relay
+    specification admits: where it prescribes a value the flag has it. -/
+theorem edgesToReturn_page_info {lt : α → α → Bool} (h : StrictTotal lt) {sort : List α → List α}
+    (hs : LawfulSort lt sort) {E S : List α} (hperm : S.Perm E) (hsorted : Sorted lt S)
+    (after before : Option α) (f l : Option Int) (page : List α) (pi : PageInfo α)
+    (hret : edgesToReturn lt sort E after before f l = some (page, pi)) :
+    Sorted lt page ∧
+    pi.startCursor = page.head? ∧ pi.endCursor = page.getLast? ∧
+    (pi.hasNextPage = true → ∃ e, e ∈ E ∧ e ∉ page ∧ ∀ p, p ∈ page → lt p e = true) ∧
+    (pi.hasPreviousPage = true → ∃ e, e ∈ E ∧ e ∉ page ∧ ∀ p, p ∈ page → lt e p = true) ∧
+    ((f = none ∨ l = none) →
+      (Relay.hasNextPage lt S before after f l).admits pi.hasNextPage = true ∧
+      (Relay.hasPreviousPage lt S before after f l).admits pi.hasPreviousPage = true) := by
+  have hnn : NonNeg f ∧ NonNeg l := by
+    apply Classical.byContradiction
+    intro hneg
+    rw [edgesToReturn_neg lt sort E after before f l hneg] at hret
+    cases hret
+  rw [edgesToReturn_eq h hs hperm hsorted after before f l hnn.1 hnn.2] at hret
+  have hpage : page = lastTrunc (firstTrunc (S.filter (inRange lt after before)) f) l :=
+    (congrArg Prod.fst (Option.some.inj hret)).symm
+  have hpi : pi = pageInfoOf lt E (S.filter (inRange lt after before)) after before f l :=
+    (congrArg Prod.snd (Option.some.inj hret)).symm
+  -- names
+  have hR : Sorted lt (S.filter (inRange lt after before)) := List.Pairwise.filter _ hsorted
+  have hXsub : (firstTrunc (S.filter (inRange lt after before)) f).Sublist (S.filter (inRange lt after before)) := by
+    cases f with
+    | none => exact List.Sublist.refl _
+    | some n => exact List.take_sublist _ _
+  have hPsub : page.Sublist (firstTrunc (S.filter (inRange lt after before)) f) := by
+    rw [hpage]
+    cases l with
+    | none => exact List.Sublist.refl _
+    | some n => exact List.drop_sublist _ _
+  have hX : Sorted lt (firstTrunc (S.filter (inRange lt after before)) f) := List.Pairwise.sublist hXsub hR
+  have hP : Sorted lt page := List.Pairwise.sublist hPsub hX
+  have hmemR : ∀ x, x ∈ S.filter (inRange lt after before) → x ∈ E ∧ inRange lt after before x = true :=
+    fun x hx => ⟨hperm.mem_iff.mp (List.mem_filter.mp hx).1, (List.mem_filter.mp hx).2⟩
+  have hpageR : ∀ p, p ∈ page → p ∈ S.filter (inRange lt after before) :=
+    fun p hp => hXsub.subset (hPsub.subset hp)
+  refine ⟨hP, by rw [hpi, hpage]; rfl, by rw [hpi, hpage]; rfl, ?_, ?_, ?_⟩
+  · -- hasNextPage is sound
+    intro hflag
+    rw [hpi] at hflag
+    cases f with
+    | some n =>
+      simp only [pageInfoOf, decide_eq_true_eq] at hflag
+      have hn : 0 ≤ n := hnn.1
+      have hlen : n.toNat < (S.filter (inRange lt after before)).length := by omega
+      -- the edge right after the cut
+      have hsplit := List.take_append_drop n.toNat (S.filter (inRange lt after before))
+      have hpw : Sorted lt (List.take n.toNat (S.filter (inRange lt after before)) ++
+          List.drop n.toNat (S.filter (inRange lt after before))) := by rw [hsplit]; exact hR
+      have hcross := (List.pairwise_append.mp hpw).2.2
+      have he : (S.filter (inRange lt after before))[n.toNat] ∈ List.drop n.toNat (S.filter (inRange lt after before)) := by
+        rw [List.drop_eq_getElem_cons hlen]; exact List.mem_cons_self
+      have hbeyond : ∀ p, p ∈ page → lt p (S.filter (inRange lt after before))[n.toNat] = true :=
+        fun p hp => hcross p (hPsub.subset hp) _ he
+      refine ⟨_, (hmemR _ (List.getElem_mem hlen)).1, ?_, hbeyond⟩
+      intro hin
+      have := hbeyond _ hin
+      rw [h.irrefl] at this; cases this
+    | none =>
+      simp only [pageInfoOf] at hflag
+      obtain ⟨e, heE, hpb⟩ := List.any_eq_true.mp hflag
+      have hbeyond : ∀ p, p ∈ page → lt p e = true := by
+        intro p hp
+        have hr := (hmemR p (hpageR p hp)).2
+        cases before with
+        | none => simp [pastBefore] at hpb
+        | some b =>
+          simp only [pastBefore, Bool.not_eq_true'] at hpb
+          have hpb' : lt p b = true := by
+            simp only [inRange, pastBefore, Bool.and_eq_true, Bool.not_eq_true', Bool.not_eq_false'] at hr
+            simpa using hr.1
+          -- p < b and ¬ e < b give p < e
+          rcases h.total p e with h1 | h1 | h1
+          · exact h1
+          · subst h1; rw [hpb] at hpb'; cases hpb'
+          · have := h.trans h1 hpb'; rw [hpb] at this; cases this
+      refine ⟨e, heE, ?_, hbeyond⟩
+      intro hin
+      have := hbeyond _ hin
+      rw [h.irrefl] at this; cases this
+  · -- hasPreviousPage is sound
+    intro hflag
+    rw [hpi] at hflag
+    cases l with
+    | some n =>
+      simp only [pageInfoOf, decide_eq_true_eq] at hflag
+      have hn : 0 ≤ n := hnn.2
+      have hlen : n.toNat < (firstTrunc (S.filter (inRange lt after before)) f).length := by omega
+      have hk : (firstTrunc (S.filter (inRange lt after before)) f).length - n.toNat - 1 <
+          (firstTrunc (S.filter (inRange lt after before)) f).length := by omega
+      have hsplit := List.take_append_drop ((firstTrunc (S.filter (inRange lt after before)) f).length - n.toNat)
+        (firstTrunc (S.filter (inRange lt after before)) f)
+      have hpw : Sorted lt (List.take ((firstTrunc (S.filter (inRange lt after before)) f).length - n.toNat)
+          (firstTrunc (S.filter (inRange lt after before)) f) ++
+          List.drop ((firstTrunc (S.filter (inRange lt after before)) f).length - n.toNat)
+          (firstTrunc (S.filter (inRange lt after before)) f)) := by rw [hsplit]; exact hX
+      have hcross := (List.pairwise_append.mp hpw).2.2
+      have he : (firstTrunc (S.filter (inRange lt after before)) f)[(firstTrunc (S.filter (inRange lt after before)) f).length - n.toNat - 1] ∈
+          List.take ((firstTrunc (S.filter (inRange lt after before)) f).length - n.toNat)
+            (firstTrunc (S.filter (inRange lt after before)) f) := by
+        rw [List.mem_take_iff_getElem]
+        exact ⟨_, by omega, rfl⟩
+      have hbeyond : ∀ p, p ∈ page → lt (firstTrunc (S.filter (inRange lt after before)) f)[(firstTrunc (S.filter (inRange lt after before)) f).length - n.toNat - 1] p = true := by
+        intro p hp
+        rw [hpage] at hp
+        exact hcross _ he p hp
+      refine ⟨_, (hmemR _ (hXsub.subset (List.getElem_mem hk))).1, ?_, hbeyond⟩
+      intro hin
+      have := hbeyond _ hin
+      rw [h.irrefl] at this; cases this
+    | none =>
+      simp only [pageInfoOf] at hflag
+      obtain ⟨e, heE, hpb⟩ := List.any_eq_true.mp hflag
+      simp only [Bool.and_eq_true, Bool.not_eq_true'] at hpb
+      have hbeyond : ∀ p, p ∈ page → lt e p = true := by
+        intro p hp
+        have hr := (hmemR p (hpageR p hp)).2
+        cases after with
+        | none => simp [notPastAfter] at hpb
+        | some a =>
+          have hea : lt a e = false := by simpa [notPastAfter] using hpb.2
+          have hap : lt a p = true := by
+            simp only [inRange, notPastAfter, Bool.and_eq_true, Bool.not_eq_true', Bool.not_eq_false'] at hr
+            simpa using hr.2
+          rcases h.total e p with h1 | h1 | h1
+          · exact h1
+          · subst h1; rw [hea] at hap; cases hap
+          · have := h.trans hap h1; rw [hea] at this; cases this
+      refine ⟨e, heE, ?_, hbeyond⟩
+      intro hin
+      have := hbeyond _ hin
+      rw [h.irrefl] at this; cases this
+  · -- the flags are admitted by the specification
+    intro hone
+    rw [hpi]
+    constructor
+    · cases f with
+      | some n =>
+        simp [Relay.hasNextPage, relay_applyCursors_eq h hsorted, pageInfoOf, Relay.Req.admits]
+      | none =>
+        cases before with
+        | none => simp [Relay.hasNextPage, pageInfoOf, Relay.Req.admits, pastBefore]
+        | some b =>
+          have hfun : S.any (fun c => !(lt c b)) = E.any (pastBefore lt (some b)) := by
+            rw [hperm.any_eq]; rfl
+          simp only [Relay.hasNextPage, pageInfoOf, Relay.Req.admits, hfun]
+          cases E.any (pastBefore lt (some b)) <;> rfl
+    · cases l with
+      | some n =>
+        have hf : f = none := by
+          rcases hone with h1 | h1
+          · exact h1
+          · cases h1
+        subst hf
+        simp [Relay.hasPreviousPage, relay_applyCursors_eq h hsorted, pageInfoOf, Relay.Req.admits, firstTrunc]
+      | none =>
+        cases after with
+        | none => simp [Relay.hasPreviousPage, pageInfoOf, Relay.Req.admits, notPastAfter]
+        | some a =>
+          simp only [Relay.hasPreviousPage, pageInfoOf, Relay.Req.admits, notPastAfter]
+          rw [← hperm.any_eq]
+          cases hany : S.any (fun c => !pastBefore lt before c && !lt a c) with
+          | false => simp
+          | true =>
+            obtain ⟨e, he, hp⟩ := List.any_eq_true.mp hany
+            simp only [Bool.and_eq_true] at hp
+            have : S.any (fun c => !lt a c) = true := List.any_eq_true.mpr ⟨e, he, hp.2⟩
+            simp [this]
+
+/-! ### The connection field -/
+
+/-- **edges_eq_relay** — a connection field, in either resolver mode, answers every accepted
+    request with exactly the edges the Relay algorithm selects from the connection in cursor order
+    (for cursors that belong to no edge: read as positions). -/
+theorem edges_eq_relay {lt : α → α → Bool} (h : StrictTotal lt) {sort : List α → List α}
+    (hs : LawfulSort lt sort) {E S : List α} (hperm : S.Perm E) (hsorted : Sorted lt S)
+    {app : App α} {mode : Mode} (hserve : Serves lt E app mode)
+    {dec : String → Option α} {a : Args} {av bv : Option α} (hacc : Accepted dec a av bv) (sel : Sel) :
+    ∃ c, resolve lt sort dec app mode a sel = .ok c ∧
+      some c.edges = Relay.edgesToReturn lt S bv av a.first a.last ∧ Sorted lt c.edges := by
+  obtain ⟨c, hres, hedges, _⟩ := conn_closed_form h hs hperm hsorted hserve a sel av bv hacc.args
+  obtain ⟨hf, hl⟩ := checkArgs_nonneg hacc.args
+  refine ⟨c, by rw [hacc.resolve_eq, hres], ?_, ?_⟩
+  · rw [relay_edgesToReturn_eq h hsorted av bv a.first a.last hf hl, hedges]
+  · rw [hedges]
+    have hR : Sorted lt (S.filter (inRange lt av bv)) := List.Pairwise.filter _ hsorted
+    have h1 : (firstTrunc (S.filter (inRange lt av bv)) a.first).Sublist (S.filter (inRange lt av bv)) := by
+      cases a.first with
+      | none => exact List.Sublist.refl _
+      | some n => exact List.take_sublist _ _
+    have h2 : (lastTrunc (firstTrunc (S.filter (inRange lt av bv)) a.first) a.last).Sublist
+        (firstTrunc (S.filter (inRange lt av bv)) a.first) := by
+      cases a.last with
+      | none => exact List.Sublist.refl _
+      | some n => exact List.drop_sublist _ _
+    exact List.Pairwise.sublist (h2.trans h1) hR
+
+/-- **cursors_first_last** — `startCursor` / `endCursor` are the cursor of the first / last returned
+    edge (absent on an empty page; the field then serialises `""`). -/
+theorem cursors_first_last {lt : α → α → Bool} (h : StrictTotal lt) {sort : List α → List α}
+    (hs : LawfulSort lt sort) {E S : List α} (hperm : S.Perm E) (hsorted : Sorted lt S)
+    {app : App α} {mode : Mode} (hserve : Serves lt E app mode)
+    {dec : String → Option α} {a : Args} {av bv : Option α} (hacc : Accepted dec a av bv) (sel : Sel)
+    (hsel : sel.pageInfo = true) :
+    ∃ c pi, resolve lt sort dec app mode a sel = .ok c ∧ c.pageInfo = some pi ∧
+      pi.startCursor = c.edges.head? ∧ pi.endCursor = c.edges.getLast? := by
+  obtain ⟨c, hres, _, _, hpi, _⟩ := conn_closed_form h hs hperm hsorted hserve a sel av bv hacc.args
+  obtain ⟨pi, hpi1, hstart, hend, _⟩ := hpi hsel
+  exact ⟨c, pi, by rw [hacc.resolve_eq, hres], hpi1, hstart, hend⟩
+
+/-- **flags_sound** — in either mode: each flag is one the Relay specification admits (where it
+    prescribes a value — the side of the count — the flag has exactly that value; where it only
+    permits `true` the flag is true only if an edge exists at or beyond the cursor), and a flag is
+    never true unless an edge of the connection exists outside the page beyond it in that
+    direction. -/
+theorem flags_sound {lt : α → α → Bool} (h : StrictTotal lt) {sort : List α → List α}
+    (hs : LawfulSort lt sort) {E S : List α} (hperm : S.Perm E) (hsorted : Sorted lt S)
+    {app : App α} {mode : Mode} (hserve : Serves lt E app mode)
+    {dec : String → Option α} {a : Args} {av bv : Option α} (hacc : Accepted dec a av bv) (sel : Sel)
+    (hsel : sel.pageInfo = true) :
+    ∃ c pi, resolve lt sort dec app mode a sel = .ok c ∧ c.pageInfo = some pi ∧
+      (Relay.hasNextPage lt S bv av a.first a.last).admits pi.hasNextPage = true ∧
+      (Relay.hasPreviousPage lt S bv av a.first a.last).admits pi.hasPreviousPage = true ∧
+      (pi.hasNextPage = true → ∃ e, e ∈ E ∧ e ∉ c.edges ∧ ∀ p, p ∈ c.edges → lt p e = true) ∧
+      (pi.hasPreviousPage = true → ∃ e, e ∈ E ∧ e ∉ c.edges ∧ ∀ p, p ∈ c.edges → lt e p = true) := by
+  obtain ⟨c, hres, hedges, _, hpi, _⟩ := conn_closed_form h hs hperm hsorted hserve a sel av bv hacc.args
+  obtain ⟨pi, hpi1, _, _, hnext, hprev, hnextfree, hprevfree⟩ := hpi hsel
+  obtain ⟨hf, hl⟩ := checkArgs_nonneg hacc.args
+  -- the all-edges computation over `S` itself yields flags that dominate ours and satisfy everything
+  obtain ⟨hP, _, _, hsn, hsp, hadm⟩ := edgesToReturn_page_info h hs hperm hsorted av bv a.first a.last
+    _ _ (edgesToReturn_eq h hs hperm hsorted av bv a.first a.last hf hl)
+  have hone : a.first = none ∨ a.last = none := by
+    rcases checkArgs_none hacc.args with ⟨n, _, _, h3⟩ | ⟨n, h1, _, _⟩
+    · exact Or.inr h3
+    · exact Or.inl h1
+  obtain ⟨hadmN, hadmP⟩ := hadm hone
+  rw [← hedges] at hsn hsp
+  -- our flags imply the all-edges flags
+  have himpN : pi.hasNextPage = true →
+      (pageInfoOf lt E (S.filter (inRange lt av bv)) av bv a.first a.last).hasNextPage = true := by
+    intro hflag
+    cases hfirst : a.first with
+    | some n => rw [hnext n hfirst] at hflag; simp only [pageInfoOf]; exact hflag
+    | none =>
+      obtain ⟨e, he, hp⟩ := hnextfree hfirst hflag
+      simp only [pageInfoOf]
+      exact List.any_eq_true.mpr ⟨e, he, hp⟩
+  have himpP : pi.hasPreviousPage = true →
+      (pageInfoOf lt E (S.filter (inRange lt av bv)) av bv a.first a.last).hasPreviousPage = true := by
+    intro hflag
+    cases hlast : a.last with
+    | some n =>
+      have hfn : a.first = none := by
+        rcases hone with h1 | h1
+        · exact h1
+        · rw [hlast] at h1; cases h1
+      rw [hprev n hlast] at hflag
+      simp only [pageInfoOf, hfn, firstTrunc]; exact hflag
+    | none =>
+      obtain ⟨e, he, hp1, hp2⟩ := hprevfree hlast hflag
+      simp only [pageInfoOf]
+      exact List.any_eq_true.mpr ⟨e, he, by simp [hp1, hp2]⟩
+  refine ⟨c, pi, by rw [hacc.resolve_eq, hres], hpi1, ?_, ?_, fun hflag => hsn (himpN hflag),
+    fun hflag => hsp (himpP hflag)⟩
+  · -- admitted: prescribed values coincide, permitted `true` is implied
+    cases hfirst : a.first with
+    | some n =>
+      rw [hfirst] at hadmN
+      have : pi.hasNextPage = (pageInfoOf lt E (S.filter (inRange lt av bv)) av bv (some n) a.last).hasNextPage := by
+        rw [hnext n hfirst]; simp [pageInfoOf]
+      rw [this]; exact hadmN
+    | none =>
+      rw [hfirst] at hadmN himpN
+      cases hflag : pi.hasNextPage with
+      | false =>
+        cases hb : bv with
+        | none => simp [Relay.hasNextPage, Relay.Req.admits]
+        | some b => simp [Relay.hasNextPage, Relay.Req.admits]
+      | true =>
+        rw [himpN hflag] at hadmN; exact hadmN
+  · cases hlast : a.last with
+    | some n =>
+      have hfn : a.first = none := by
+        rcases hone with h1 | h1
+        · exact h1
+        · rw [hlast] at h1; cases h1
+      rw [hlast, hfn] at hadmP
+      have : pi.hasPreviousPage = (pageInfoOf lt E (S.filter (inRange lt av bv)) av bv none (some n)).hasPreviousPage := by
+        rw [hprev n hlast]; simp [pageInfoOf, firstTrunc]
+      rw [hfn, this]; exact hadmP
+    | none =>
+      rw [hlast] at hadmP himpP
+      cases hflag : pi.hasPreviousPage with
+      | false =>
+        cases ha : av with
+        | none => simp [Relay.hasPreviousPage, Relay.Req.admits]
+        | some b => simp [Relay.hasPreviousPage, Relay.Req.admits]
+      | true =>
+        rw [himpP hflag] at hadmP; exact hadmP
+
+/-- **total_count** — `totalCount` is the size of the connection: the number of edges
+    `ResolveAllEdges` supplies, or whatever `ResolveTotalCount` answers when the application
+    configured it (then it is the application's statement of the size). Same on the lazy zero-edge
+    path. -/
+theorem total_count {lt : α → α → Bool} (h : StrictTotal lt) {sort : List α → List α}
+    (hs : LawfulSort lt sort) {E S : List α} (hperm : S.Perm E) (hsorted : Sorted lt S)
+    {app : App α} {mode : Mode} (hserve : Serves lt E app mode)
+    {dec : String → Option α} {a : Args} {av bv : Option α} (hacc : Accepted dec a av bv) (sel : Sel)
+    (hsel : sel.totalCount = true) (hfield : hasTotalCountField app mode = true)
+    (happ : app.totalCount = none ∨ app.totalCount = some (E.length : Int)) :
+    ∃ c, resolve lt sort dec app mode a sel = .ok c ∧ c.totalCount = some (E.length : Int) := by
+  obtain ⟨c, hres, _, _, _, htc⟩ := conn_closed_form h hs hperm hsorted hserve a sel av bv hacc.args
+  refine ⟨c, by rw [hacc.resolve_eq, hres], ?_⟩
+  rw [htc, hsel, hfield]
+  simp only [Bool.and_self, if_true, totalCountValue]
+  rcases happ with h0 | h0
+  · rw [h0]
+    cases mode with
+    | all =>
+      have : app.allEdges.Perm E := hserve
+      simp [this.length_eq]
+    | window => simp [hasTotalCountField, h0] at hfield
+  · rw [h0]
+
+/-- **window_eq_all** — limited-window mode is indistinguishable from all-edges mode: for any getter
+    that honours the `ResolveEdges` contract and any application supplying all edges of the same
+    connection, the two connection fields return the same edges, the same start/end cursors, the
+    same flag on the side of the count, and a "free" flag (the other side) can be true in window mode
+    only if it is true in all-edges mode. -/
+theorem window_eq_all {lt : α → α → Bool} (h : StrictTotal lt) {sort : List α → List α}
+    (hs : LawfulSort lt sort) {E S : List α} (hperm : S.Perm E) (hsorted : Sorted lt S)
+    {appW appA : App α} (hW : HonoursWindow lt E appW.getter) (hA : appA.allEdges.Perm E)
+    {dec : String → Option α} {a : Args} {av bv : Option α} (hacc : Accepted dec a av bv) :
+    ∃ cW cA piW piA,
+      resolve lt sort dec appW .window a { pageInfo := true, totalCount := false } = .ok cW ∧
+      resolve lt sort dec appA .all a { pageInfo := true, totalCount := false } = .ok cA ∧
+      cW.edges = cA.edges ∧ cW.pageInfo = some piW ∧ cA.pageInfo = some piA ∧
+      piW.startCursor = piA.startCursor ∧ piW.endCursor = piA.endCursor ∧
+      (a.first ≠ none → piW.hasNextPage = piA.hasNextPage) ∧
+      (a.last ≠ none → piW.hasPreviousPage = piA.hasPreviousPage) ∧
+      (piW.hasNextPage = true → piA.hasNextPage = true) ∧
+      (piW.hasPreviousPage = true → piA.hasPreviousPage = true) := by
+  obtain ⟨cW, hresW, hedgesW, _, hpiW, _⟩ := conn_closed_form h hs hperm hsorted (mode := .window) (app := appW) hW
+    a { pageInfo := true, totalCount := false } av bv hacc.args
+  obtain ⟨cA, hresA, hedgesA, hpiA, _⟩ := resolveDecoded_shape lt sort appA .all a
+    { pageInfo := true, totalCount := false } av bv hacc.args
+  obtain ⟨piW, hpiW1, hstartW, hendW, hnextW, hprevW, hnextfree, hprevfree⟩ := hpiW rfl
+  have hsortA : sort (appA.allEdges.filter (inRange lt av bv)) = S.filter (inRange lt av bv) :=
+    sort_filter_eq h hs (hperm.trans hA.symm) hsorted _
+  simp only [fetch, hsortA, if_true] at hedgesA hpiA
+  have hone : a.first = none ∨ a.last = none := by
+    rcases checkArgs_none hacc.args with ⟨n, _, _, h3⟩ | ⟨n, h1, _, _⟩
+    · exact Or.inr h3
+    · exact Or.inl h1
+  refine ⟨cW, cA, piW, _, by rw [hacc.resolve_eq, hresW], by rw [hacc.resolve_eq, hresA],
+    by rw [hedgesW, hedgesA], hpiW1, hpiA, ?_, ?_, ?_, ?_, ?_, ?_⟩
+  · rw [hstartW, hedgesW]; rfl
+  · rw [hendW, hedgesW]; rfl
+  · intro hne
+    cases hfirst : a.first with
+    | none => exact absurd hfirst hne
+    | some n => rw [hnextW n hfirst]; simp [pageInfoOf]
+  · intro hne
+    cases hlast : a.last with
+    | none => exact absurd hlast hne
+    | some n =>
+      have hfn : a.first = none := by
+        rcases hone with h1 | h1
+        · exact h1
+        · rw [hlast] at h1; cases h1
+      rw [hprevW n hlast]; simp [pageInfoOf, hfn, firstTrunc]
+  · intro hflag
+    cases hfirst : a.first with
+    | some n => rw [hnextW n hfirst] at hflag; simp only [pageInfoOf]; exact hflag
+    | none =>
+      obtain ⟨e, he, hp⟩ := hnextfree hfirst hflag
+      simp only [pageInfoOf]
+      exact List.any_eq_true.mpr ⟨e, hA.mem_iff.mpr he, hp⟩
+  · intro hflag
+    cases hlast : a.last with
+    | some n =>
+      have hfn : a.first = none := by
+        rcases hone with h1 | h1
+        · exact h1
+        · rw [hlast] at h1; cases h1
+      rw [hprevW n hlast] at hflag
+      simp only [pageInfoOf, hfn, firstTrunc]; exact hflag
+    | none =>
+      obtain ⟨e, he, hp1, hp2⟩ := hprevfree hlast hflag
+      simp only [pageInfoOf]
+      exact List.any_eq_true.mpr ⟨e, hA.mem_iff.mpr he, by simp [hp1, hp2]⟩
+
+/-- **edges_le_first** — a page never holds more edges than the count asked for (feeds C14: the
+    `edges` cost multiplier is an upper bound). -/
+theorem edges_le_first {lt : α → α → Bool} (h : StrictTotal lt) {sort : List α → List α}
+    (hs : LawfulSort lt sort) {E S : List α} (hperm : S.Perm E) (hsorted : Sorted lt S)
+    {app : App α} {mode : Mode} (hserve : Serves lt E app mode)
+    {dec : String → Option α} {a : Args} {av bv : Option α} (hacc : Accepted dec a av bv) (sel : Sel) :
+    ∃ c, resolve lt sort dec app mode a sel = .ok c ∧
+      (∀ n, a.first = some n → (c.edges.length : Int) ≤ n) ∧
+      (∀ n, a.last = some n → (c.edges.length : Int) ≤ n) := by
+  obtain ⟨c, hres, hedges, _⟩ := conn_closed_form h hs hperm hsorted hserve a sel av bv hacc.args
+  refine ⟨c, by rw [hacc.resolve_eq, hres], ?_, ?_⟩
+  · intro n hn
+    rcases checkArgs_none hacc.args with ⟨m, h1, h2, h3⟩ | ⟨m, h1, _, _⟩
+    · rw [hedges, h1, h3]
+      have : m = n := by rw [h1] at hn; exact Option.some.inj hn
+      subst this
+      simp only [firstTrunc, lastTrunc, List.length_take]
+      omega
+    · rw [h1] at hn; cases hn
+  · intro n hn
+    rcases checkArgs_none hacc.args with ⟨m, _, _, h3⟩ | ⟨m, h1, h2, h3⟩
+    · rw [h3] at hn; cases hn
+    · rw [hedges, h1, h2]
+      have : m = n := by rw [h2] at hn; exact Option.some.inj hn
+      subst this
+      simp only [firstTrunc, lastTrunc, List.length_drop]
+      omega
+
+end
+
+/-- **arg_errors** — a negative count, a missing count, or `first` and `last` together yield an
+    error, whatever the application, the cursors and the mode — and the application is not called
+    (an `Out.error` carries no calls; only `Out.ok` does). Conversely these are the only argument
+    errors besides undecodable cursors. -/
+theorem arg_errors (lt : α → α → Bool) (sort : List α → List α) (dec : String → Option α)
+    (app : App α) (mode : Mode) (a : Args) (sel : Sel) :
+    ((∃ n, a.first = some n ∧ n < 0) → resolve lt sort dec app mode a sel = .error .firstNegative) ∧
+    ((∃ n, a.first = some n ∧ 0 ≤ n) → a.last ≠ none →
+      resolve lt sort dec app mode a sel = .error .bothFirstAndLast) ∧
+    (a.first = none → (∃ n, a.last = some n ∧ n < 0) →
+      resolve lt sort dec app mode a sel = .error .lastNegative) ∧
+    (a.first = none → a.last = none → resolve lt sort dec app mode a sel = .error .neitherFirstNorLast) ∧
+    ((∃ e, resolve lt sort dec app mode a sel = .error e) ↔
+      (checkArgs a ≠ none ∨ decodeArg dec a.after = none ∨ decodeArg dec a.before = none)) := by
+  refine ⟨?_, ?_, ?_, ?_, ?_⟩
+  · rintro ⟨n, h1, h2⟩
+    simp [resolve, checkArgs, h1, h2]
+  · rintro ⟨n, h1, h2⟩ hl
+    have : ¬ n < 0 := by omega
+    have hl' : a.last.isSome = true := by cases hx : a.last <;> simp_all
+    simp [resolve, checkArgs, h1, this, hl']
+  · rintro h1 ⟨n, h2, h3⟩
+    simp [resolve, checkArgs, h1, h2, h3]
+  · intro h1 h2
+    simp [resolve, checkArgs, h1, h2]
+  · constructor
+    · rintro ⟨e, he⟩
+      by_cases hc : checkArgs a = none
+      · right
+        cases hda : decodeArg dec a.after with
+        | none => exact Or.inl rfl
+        | some av =>
+          cases hdb : decodeArg dec a.before with
+          | none => exact Or.inr rfl
+          | some bv =>
+            rw [resolve_accepted lt sort dec app mode a sel av bv hc hda hdb] at he
+            obtain ⟨c, hres, _⟩ := resolveDecoded_shape lt sort app mode a sel av bv hc
+            rw [hres] at he; cases he
+      · exact Or.inl hc
+    · intro hor
+      cases hc : checkArgs a with
+      | some e => exact ⟨e, by simp [resolve, hc]⟩
+      | none =>
+        rcases hor with h1 | h1 | h1
+        · exact absurd hc h1
+        · exact ⟨.invalidAfter, by simp [resolve, hc, h1]⟩
+        · cases hda : decodeArg dec a.after with
+          | none => exact ⟨.invalidAfter, by simp [resolve, hc, hda]⟩
+          | some av => exact ⟨.invalidBefore, by simp [resolve, hc, hda, h1]⟩
+
+/-- **never_crashes** — for every application (contract-honouring or not), every `sort`, every
+    decoder and every argument combination — in particular arbitrary cursor strings — the resolver
+    never reaches a Go panic: it answers with an error or with a connection. An arbitrary string is
+    either rejected (`invalidAfter` / `invalidBefore`) or treated as the position the decoder
+    assigns to it. -/
+theorem never_crashes (lt : α → α → Bool) (sort : List α → List α) (dec : String → Option α)
+    (app : App α) (mode : Mode) (a : Args) (sel : Sel) :
+    resolve lt sort dec app mode a sel ≠ .crash ∧
+    ((∃ e, resolve lt sort dec app mode a sel = .error e) ∨
+     (∃ av bv c, resolve lt sort dec app mode a sel = resolveDecoded lt sort app mode a sel av bv ∧
+        resolveDecoded lt sort app mode a sel av bv = .ok c)) := by
+  cases hc : checkArgs a with
+  | some e => exact ⟨by simp [resolve, hc], Or.inl ⟨e, by simp [resolve, hc]⟩⟩
+  | none =>
+    cases hda : decodeArg dec a.after with
+    | none => exact ⟨by simp [resolve, hc, hda], Or.inl ⟨.invalidAfter, by simp [resolve, hc, hda]⟩⟩
+    | some av =>
+      cases hdb : decodeArg dec a.before with
+      | none => exact ⟨by simp [resolve, hc, hda, hdb], Or.inl ⟨.invalidBefore, by simp [resolve, hc, hda, hdb]⟩⟩
+      | some bv =>
+        obtain ⟨c, hres, _⟩ := resolveDecoded_shape lt sort app mode a sel av bv hc
+        have heq := resolve_accepted lt sort dec app mode a sel av bv hc hda hdb
+        exact ⟨by rw [heq, hres]; simp, Or.inr ⟨av, bv, c, heq, hres⟩⟩
+
+/-- **cursor_roundtrip** — under a lawful codec every cursor the server emits is accepted back and
+    denotes the same position: sending `enc c` as `after` (or `before`) is the request with the
+    decoded position `c`. -/
+theorem cursor_roundtrip {dec : String → Option α} {enc : α → String} (hcodec : LawfulCodec dec enc)
+    (lt : α → α → Bool) (sort : List α → List α) (app : App α) (mode : Mode) (sel : Sel)
+    (f l : Option Int) (ca cb : Option α)
+    (hc : checkArgs { first := f, last := l, after := ca.map enc, before := cb.map enc } = none) :
+    resolve lt sort dec app mode { first := f, last := l, after := ca.map enc, before := cb.map enc } sel =
+      resolveDecoded lt sort app mode { first := f, last := l, after := ca.map enc, before := cb.map enc } sel ca cb := by
+  apply resolve_accepted _ _ _ _ _ _ _ _ _ hc
+  · cases ca with
+    | none => simp [decodeArg]
+    | some c => exact decodeArg_enc hcodec c
+  · cases cb with
+    | none => simp [decodeArg]
+    | some c => exact decodeArg_enc hcodec c
+
+section
+variable [DecidableEq α]
+
+/-- **walk_exact** — for every page size `n ≥ 1`, in either mode: following `endCursor` with
+    `after` while `hasNextPage` (respectively `startCursor` with `before` while `hasPreviousPage`)
+    terminates within `|E| + 1` requests, never meets an error, and the pages concatenate to the
+    connection in cursor order — every edge exactly once (`S` has no duplicates), no page longer
+    than `n`. By induction on the remaining range; unbounded in `|E|` and `n`. -/
+theorem walk_exact {lt : α → α → Bool} (h : StrictTotal lt) {sort : List α → List α}
+    (hs : LawfulSort lt sort) {E S : List α} (hperm : S.Perm E) (hsorted : Sorted lt S)
+    {app : App α} {mode : Mode} (hserve : Serves lt E app mode)
+    {dec : String → Option α} {enc : α → String} (hcodec : LawfulCodec dec enc) (n : Nat) (hn : 1 ≤ n) :
+    (∃ pages, walkForward lt sort dec enc app mode n (E.length + 1) none = some pages ∧
+      pages.flatten = S ∧ ∀ p, p ∈ pages → p.length ≤ n) ∧
+    (∃ pages, walkBackward lt sort dec enc app mode n (E.length + 1) none = some pages ∧
+      pages.flatten = S ∧ ∀ p, p ∈ pages → p.length ≤ n) ∧
+    S.Nodup := by
+  have hall : S.filter (inRange lt none none) = S :=
+    List.filter_eq_self.mpr (fun a _ => by simp [inRange, pastBefore, notPastAfter])
+  have hlen : (S.filter (inRange lt none none)).length < E.length + 1 := by
+    rw [hall, hperm.length_eq]; omega
+  refine ⟨?_, ?_, Sorted.nodup h hsorted⟩
+  · obtain ⟨pages, h1, h2, h3⟩ := walkForward_spec h hs hperm hsorted hserve hcodec n hn (E.length + 1)
+      none none (by simp [decodeArg]) hlen
+    exact ⟨pages, h1, by rw [h2, hall], h3⟩
+  · obtain ⟨pages, h1, h2, h3⟩ := walkBackward_spec h hs hperm hsorted hserve hcodec n hn (E.length + 1)
+      none none (by simp [decodeArg]) hlen
+    exact ⟨pages, h1, by rw [h2, hall], h3⟩
+
+end
+
+/-! ### Non-vacuity: the hypotheses are jointly satisfiable and the statements say something -/
+
+section examples
+
+/-- Integer cursors ordered by `<` (the driver's instance). -/
+def ltI (a b : Int) : Bool := decide (a < b)
+
+theorem strictTotal_ltI : StrictTotal ltI where
+  irrefl := fun a => by simp [ltI]
+  trans := fun {a b c} h1 h2 => by simp only [ltI, decide_eq_true_eq] at *; omega
+  total := fun a b => by simp only [ltI, decide_eq_true_eq]; omega
+
+/-- A unary toy codec on naturals: lawful. -/
+def encU (n : Nat) : String := String.ofList (List.replicate (n + 1) 'x')
+def decU (s : String) : Option Nat :=
+  match s.toList.length with
+  | 0 => none
+  | k + 1 => some k
+
+theorem lawfulCodecU : LawfulCodec decU encU where
+  dec_enc := fun c => by simp [decU, encU]
+  enc_ne := fun c h => by
+    have := congrArg String.toList h
+    simp [encU, List.replicate_succ] at this
+
+def ltN (a b : Nat) : Bool := decide (a < b)
+
+theorem strictTotal_ltN : StrictTotal ltN where
+  irrefl := fun a => by simp [ltN]
+  trans := fun {a b c} h1 h2 => by simp only [ltN, decide_eq_true_eq] at *; omega
+  total := fun a b => by simp only [ltN, decide_eq_true_eq]; omega
+
+/-- A getter that returns everything honours the contract (extra edges are allowed). -/
+theorem honours_everything {lt : α → α → Bool} {E : List α} (hn : E.Nodup) :
+    HonoursWindow lt E (fun _ _ _ => E) where
+  sub := fun _ _ _ _ hc => hc
+  nodup := fun _ _ _ => hn
+  first := fun _ _ _ _ _ hc _ _ => hc
+  last := fun _ _ _ _ _ hc _ _ => hc
+
+/-- All hypotheses of `walk_exact` hold for a concrete three-edge connection served in window mode,
+    and the conclusion is the concrete statement that the pages concatenate to `[10, 20, 30]`. -/
+example : ∃ pages, walkForward ltN (isort ltN) decU encU
+      { allEdges := [], getter := fun _ _ _ => [30, 10, 20], totalCount := some 3 } .window 2 4 none = some pages ∧
+    pages.flatten = [10, 20, 30] :=
+  let hw := walk_exact strictTotal_ltN (isort_lawful strictTotal_ltN) (E := [30, 10, 20]) (S := [10, 20, 30])
+    (by decide) (by simp [Sorted, ltN])
+    (app := { allEdges := [], getter := fun _ _ _ => [30, 10, 20], totalCount := some 3 }) (mode := .window)
+    (honours_everything (by decide)) lawfulCodecU 2 (by omega)
+  let ⟨pages, h1, h2, _⟩ := hw.1
+  ⟨pages, h1, h2⟩
+
+/-- The model computes: `first: 2, after: 10` over `{30, 10, 40, 20}` in both modes. -/
+example :
+    edgesToReturn ltI (isort ltI) [30, 10, 40, 20] (some 10) none (some 2) none =
+      some ([20, 30], { hasPreviousPage := true, hasNextPage := true, startCursor := some 20, endCursor := some 30 }) := by
+  decide
+
+/-- A negative count reaches the Go panic in `EdgesToReturn` … -/
+example : edgesToReturn ltI (isort ltI) [1, 2] none none (some (-1)) none = none := by decide
+
+/-- … but never through the connection field (`arg_errors`, `never_crashes`). -/
+example : resolve ltI (isort ltI) (fun _ => none) { allEdges := [1, 2], getter := fun _ _ _ => [], totalCount := none }
+    .all { first := some (-1), last := none, after := none, before := none } { pageInfo := true, totalCount := true }
+    = .error .firstNegative := by decide
+
+/-- The Relay flags are three-valued: with `last` only and a `before` cursor, `hasNextPage` may be
+    true (an edge exists at `before`) but need not. -/
+example : Relay.hasNextPage ltI [10, 20, 30] (some 30) none none (some 1) = .mayBeTrueIf true := by decide
+example : (Relay.Req.mayBeTrueIf true).admits false = true ∧ (Relay.Req.mayBeTrueIf false).admits true = false := by decide
+
+end examples
+
 end ApiFu.C09
